@@ -2,6 +2,7 @@ SPECIFICATION Spec
 CONSTANTS
   MaxSteps = 7
 INVARIANT BalanceIsSumOfKeys
+INVARIANT BalanceIsSumOfAccounts
 INVARIANT NoSpentListed
 INVARIANT OneCoinPerOutpoint
 INVARIANT NoDoubleSpend
